@@ -20,6 +20,7 @@ pub enum RdpErrorKind {
     UnexpectedType
 }
 
+#[derive(Debug)]
 pub struct RdpError {
     pub kind: RdpErrorKind,
 }
@@ -38,6 +39,7 @@ impl RdpError {
     }
 }
 
+#[derive(Debug)]
 pub enum Error {
     RdpError(RdpError),
     Io,
@@ -315,3 +317,10 @@ pub broadcast group axiom_duplex { axiom_duplex_w, axiom_duplex_r }
 // ---- std functions without a vstd specification (TRUSTED: their documented meaning)
 pub assume_specification<T: Clone> [<[T]>::to_vec] (s: &[T]) -> (r: Vec<T>)
     ensures r@ == s@;
+
+/// UTF-8 encoding of a string (uninterpreted: only its length bound is used)
+pub uninterp spec fn utf8_bytes(s: Seq<char>) -> Seq<u8>;
+pub broadcast axiom fn axiom_utf8_len(s: Seq<char>)
+    ensures #[trigger] utf8_bytes(s).len() <= 4 * s.len(), utf8_bytes(s).len() >= s.len();
+pub assume_specification [std::string::String::as_bytes] (s: &String) -> (r: &[u8])
+    ensures r@ == utf8_bytes(s@);
